@@ -64,6 +64,8 @@ impl CodeStatement for Statement {
             + ParallelMoves<Code, Temporary>
             + Utils<Temporary>,
     {
+        #[cfg(feature = "verif-hooks")]
+        instructions.push(Backend::comment(verif_marker(&self, &context)));
         match self {
             Statement::Substitute(substitute) => {
                 substitute.code_statement::<Backend, _, _, _>(types, context, instructions);
@@ -104,4 +106,43 @@ impl CodeStatement for Statement {
             }
         }
     }
+}
+
+/// Verification hook: renders the statement kind and the ordered environment at a statement
+/// boundary as `@@V <kind> | name#id:chi:type ; ...`.
+#[cfg(feature = "verif-hooks")]
+fn verif_marker(statement: &Statement, context: &TypingContext) -> String {
+    use axcut::syntax::Chirality;
+    let kind = match statement {
+        Statement::Substitute(_) => "substitute",
+        Statement::Call(_) => "call",
+        Statement::Let(_) => "let",
+        Statement::Switch(_) => "switch",
+        Statement::Create(_) => "create",
+        Statement::Invoke(_) => "invoke",
+        Statement::Literal(_) => "literal",
+        Statement::Op(_) => "op",
+        Statement::PrintI64(_) => "print",
+        Statement::IfC(_) => "ifc",
+        Statement::Exit(_) => "exit",
+    };
+    let bindings: Vec<String> = context
+        .bindings
+        .iter()
+        .map(|binding| {
+            let chi = match binding.chi {
+                Chirality::Prd => "prd",
+                Chirality::Cns => "cns",
+                Chirality::Ext => "ext",
+            };
+            format!(
+                "{}#{}:{}:{}",
+                binding.var.name,
+                binding.var.id,
+                chi,
+                binding.ty.print_to_string(None)
+            )
+        })
+        .collect();
+    format!("@@V {kind} | {}", bindings.join(" ; "))
 }
